@@ -42,7 +42,7 @@ def run(n=400, seed=0):
                 elif action == "add":
                     built.append((("add", i, j), a + b))
                 elif action == "quant":
-                    built.append((("quant", i), a.at_least_at_most(1, 3, rnd.random() < 0.5).optional()))
+                    built.append((("quant", i), a.at_least_at_most(1, 3, True).optional()))
                 elif action == "capture":
                     built.append((("capture", i), a.capture().capture("m")))
                 elif action == "group":
@@ -77,12 +77,13 @@ def run(n=400, seed=0):
                 fails.append({"operand": e, "before": [str(v)[:60] for v in x[:4]], "after": [str(v)[:60] for v in y[:4]]})
         # rebuilding from fresh sub-objects gives the same text
         fresh = [eval(e, ns) for e in LEAVES]
-        for key, val in built[:8]:
+        for key, val in built:
             try:
                 a = fresh[key[1]]
                 b = fresh[key[2]] if len(key) > 2 else None
                 again = {"concat": lambda: a.concat(b), "either": lambda: a.either(b), "enclose": lambda: a.enclose(b), "add": lambda: a + b,
                          "followed": lambda: a.followed_by(b), "group": lambda: a.group(True), "mul": lambda: a * 2,
+                         "quant": lambda: a.at_least_at_most(1, 3, True).optional(), "capture": lambda: a.capture().capture("m"),
                          "anchor": lambda: a.match_at_line_end()}.get(key[0])
                 if again is None:
                     continue
